@@ -47,7 +47,7 @@ TraceReset == /\ IsEvent("reset")
               /\ hosts' = [n \in Nodes |-> [a \in {} |-> <<>>]]
               /\ out' = <<>> /\ tunout' = 0 /\ sends' = 0
               /\ timers' = [n \in Nodes |-> [a \in {} |-> <<>>]] /\ early' = FALSE
-              /\ bad' = [n \in Nodes |-> [a \in {} |-> {}]]
+              /\ bad' = [n \in Nodes |-> [a \in {} |-> {}]] /\ trust' = Trusts
 
 TraceTunSend == /\ IsEvent("TunSend") /\ TunSend(Log[l].n, Log[l].a, Log[l].ok) /\ Match(Log[l].n, Log[l])
 TraceRetry   == /\ IsEvent("Retry")   /\ Retry(Log[l].n, Log[l].a, Log[l].k) /\ Match(Log[l].n, Log[l])
@@ -63,12 +63,13 @@ TraceTick    == IsEvent("Tick") /\ Tick
 \* a handshake datagram that fails authentication (recoverably): nothing changes (C07); with "racing" the node's state was
 \* not sampled (a goroutine of the node is parked inside the step until the following Tick)
 TraceGarbled == /\ IsEvent("Garbled") /\ NoEmit /\ tunout' = 0
-                /\ UNCHANGED <<clock, msgs, pend, tuns, hosts, sends, timers, early, bad>>
+                /\ UNCHANGED <<clock, msgs, pend, tuns, hosts, sends, timers, early, bad, trust>>
                 /\ ("racing" \in DOMAIN Log[l] \/ Match(Log[l].n, Log[l]))
 \* the network has been silent for longer than all attempts of a handshake take: nothing is pending any more
 TraceQuiet == /\ IsEvent("Quiet") /\ UNCHANGED vars
               /\ Log[l].pending = 0 /\ NoOverdue /\ \A n \in Nodes : DOMAIN pend[n] = {}
-TraceNext == TraceReset \/ TraceTunSend \/ TraceRetry \/ TraceDeliver \/ TraceTick \/ TraceGarbled \/ TraceQuiet
+TraceRetrust == /\ IsEvent("Retrust") /\ Retrust(Log[l].n, SetOf(Log[l].trusts)) /\ Match(Log[l].n, Log[l])
+TraceNext == TraceRetrust \/ TraceReset \/ TraceTunSend \/ TraceRetry \/ TraceDeliver \/ TraceTick \/ TraceGarbled \/ TraceQuiet
 TraceSpec == TraceInit /\ [][TraceNext]_tvars
 
 TraceAccepted == TLCGet("stats").diameter - 1 = Len(Log)
